@@ -44,6 +44,9 @@ func newNd(ctx context.Context, name string, opts ...node.Option) *Nd {
 
 func (x *Nd) close(ctx context.Context) { _ = x.n.Close(ctx) }
 
+// noEvents drops the update subscription: an engine that never reads it would stall the bus after 100 events.
+func (x *Nd) noEvents() { x.n.DB.Events().Unsubscribe(x.upd) }
+
 func (x *Nd) addSchema(ctx context.Context, sdl string) {
 	if _, err := x.n.DB.AddSchema(ctx, sdl); err != nil {
 		panic(fmt.Sprintf("AddSchema %s: %v", sdl, err))
